@@ -1269,6 +1269,88 @@ def replay_const_roundtrip(w):
 
 
 
+# ====================================================================================================
+# C14.num.ascii_only: a number pattern matches ASCII spellings only (the ASCII restriction of *.lang is then a fact)
+# ====================================================================================================
+
+
+def non_ascii_matchers(p):
+    """structural reasons why the REAL pattern p can match a non-ASCII character: a category escape (\\d, \\w, \\s and negations) or a negated
+    set / `.` in a str pattern compiled without re.ASCII, or an IGNORECASE letter with a non-ASCII case variant (k -> KELVIN SIGN, s -> LONG S)"""
+    import re._constants as C
+    import re._parser as RP
+    reasons = []
+    ascii_flag = bool(p.flags & re.ASCII)
+    ic = bool(p.flags & re.IGNORECASE)
+
+    def walk(items):
+        for op, av in items:
+            if op is C.IN:
+                for o2, a2 in av:
+                    if o2 is C.CATEGORY and not ascii_flag:
+                        reasons.append(f"category escape {str(a2).lower()} without re.ASCII")
+                    if o2 is C.NEGATE:
+                        reasons.append("negated character set")
+                    if o2 is C.LITERAL and ic and not ascii_flag and chr(a2).lower() in "ks":
+                        reasons.append(f"letter {chr(a2)!r} under IGNORECASE without re.ASCII")
+                    if o2 is C.RANGE and ic and not ascii_flag and any(chr(x).lower() in "ks" for x in range(a2[0], a2[1] + 1)):
+                        reasons.append(f"range {chr(a2[0])}-{chr(a2[1])} under IGNORECASE without re.ASCII")
+            elif op is C.LITERAL:
+                if av > 127:
+                    reasons.append(f"literal {chr(av)!r}")
+                if ic and not ascii_flag and chr(av).lower() in "ks":
+                    reasons.append(f"letter {chr(av)!r} under IGNORECASE without re.ASCII")
+            elif op in (C.ANY, C.NOT_LITERAL):
+                reasons.append("`.` / negated literal")
+            elif op is C.CATEGORY and not ascii_flag:
+                reasons.append(f"category escape {str(av).lower()} without re.ASCII")
+            elif op is C.BRANCH:
+                for b in av[1]:
+                    walk(list(b))
+            elif op is C.SUBPATTERN:
+                walk(list(av[3]))
+            elif op in (C.MAX_REPEAT, C.MIN_REPEAT):
+                walk(list(av[2]))
+            elif op in (C.ASSERT, C.ASSERT_NOT):
+                pass  # context only
+    walk(list(RP.parse(p.pattern, p.flags)))
+    return sorted(set(reasons))
+
+
+def non_ascii_witness(p):
+    """a spelling with a non-ASCII character that the real pattern fully matches (probe over all Unicode decimal digits / letter variants)"""
+    import unicodedata
+    extra = [chr(i) for i in range(128, 0x110000) if unicodedata.category(chr(i)) == "Nd"] + ["K", "ſ"]
+    for ch in extra:
+        for s in ("1" + ch, ch, "0x" + ch, "1." + ch, "1e" + ch, ch + ".5", "0b" + ch, "0o" + ch):
+            if p.fullmatch(s):
+                return s
+    return None
+
+
+def ascii_only(task, tier, seed):
+    t0 = time.time()
+    out = []
+    for name, p in (("integer_re", L.integer_re), ("float_re", L.float_re)):
+        reasons = non_ascii_matchers(p)
+        w = non_ascii_witness(p) if reasons else None
+        ok = not reasons
+        out.append(Res(f"C14.num.ascii_only[{name}]", "discharged" if ok else "refuted", "regex", time.time() - t0,
+                       f"lexer.{name} can only match ASCII spellings (flags {re.RegexFlag(p.flags)!r})" if ok else
+                       f"lexer.{name} can match non-ASCII characters ({'; '.join(reasons)}), e.g. the spelling {w!r}: the lexer reads it as one number although Python assigns it no value",
+                       "regex", None if ok else {"spelling": w or "1٣", "key": f"{name}:non-ascii-digits"}))
+    return out
+
+
+def replay_ascii_only(w):
+    s = w["spelling"]
+    r = lex_one_number(s)
+    pv = py_value(s)
+    bad = r[0] == "one" and pv is None
+    return (bad, f"{{{{ {s} }}}}: the lexer reads {r!r}; Python's value of the spelling: {pv!r}")
+
+
+
 def bounded_tasks():
     ts = []
     for k in range(NUM_SHARDS):
@@ -1288,12 +1370,18 @@ def bounded_tasks():
     return ts
 
 
+def _with_key(t):
+    t.finding_key = numbers_key
+    return t
+
+
 TASKS = [
     FnTask(PROP, "C14.int.lang", int_lang, kind="regex", replay_fn=replay_lang),
     FnTask(PROP, "C14.float.lang", float_lang, kind="regex", replay_fn=replay_lang),
     FnTask(PROP, "C14.str.lang", str_lang, kind="regex", replay_fn=replay_str_lang),
     FnTask(PROP, "C14.lex.longest", lex_longest, kind="regex", replay_fn=replay_lang),
     FnTask(PROP, "C14.pygrammar", pygrammar, kind="table"),
+    _with_key(FnTask(PROP, "C14.num.ascii_only", ascii_only, kind="regex", replay_fn=replay_ascii_only)),
     FnTask(PROP, "C14.const.roundtrip", const_roundtrip, kind="table", replay_fn=replay_const_roundtrip),
     NumValue(L.TOKEN_INTEGER), NumValue(L.TOKEN_FLOAT), StrValue(), Concat(),
 ] + bounded_tasks()
